@@ -9,6 +9,7 @@ for d in sorted(glob.glob(os.path.join(V, "seeded", "*"))):
     n = notes.get(name, {})
     confirm = open(os.path.join(d, "confirm.log")).read() if os.path.exists(os.path.join(d, "confirm.log")) else ""
     checks = open(os.path.join(d, "checks.log")).read() if os.path.exists(os.path.join(d, "checks.log")) else ""
+    final = open(os.path.join(d, "final.log")).read() if os.path.exists(os.path.join(d, "final.log")) else ""
     fired, exit2, oracles = [], [], {}
     cur = None
     for line in checks.splitlines():
@@ -19,6 +20,16 @@ for d in sorted(glob.glob(os.path.join(V, "seeded", "*"))):
             if m.group(2) == "2": exit2.append(cur)
         m = re.search(r"oracle=(\S+) key=(.*)", line)
         if m and cur: oracles.setdefault(cur, []).append(m.group(1) + ": " + m.group(2).strip()[:90])
+    ffired, fexit2, foracles = [], [], {}
+    cur = None
+    for line in final.splitlines():
+        m = re.match(r"== (C\d+) rc=(\d+)", line)
+        if m:
+            cur = m.group(1)
+            if m.group(2) == "1": ffired.append(cur)
+            if m.group(2) == "2": fexit2.append(cur)
+        m = re.search(r"oracle=(\S+) key=(.*)", line)
+        if m and cur: foracles.setdefault(cur, []).append(m.group(1) + ": " + m.group(2).strip()[:90])
     meta = {
         "name": name,
         "breaks_property": n.get("property", name[:3]),
@@ -27,12 +38,13 @@ for d in sorted(glob.glob(os.path.join(V, "seeded", "*"))):
         "confirmed": "=> CONFIRMED" in confirm,
         "what_was_run": [
             "tools/eval_mutant.sh <scratch worktree> <mutant dir>: patch applies; repository suite (9 module dirs) passes with it; demonstration fails with it and passes without (see confirm.log)",
-            "tools/matrix.sh quick: every registered quick check against a scratch worktree with the patch applied (see checks.log); the primary check was also run with the patch applied to /repo itself (git apply / checkout)",
+            "tools/matrix.sh quick: every registered quick check against a scratch worktree with the patch applied (see checks.log, made with the harness of that time)",
+            "tools/matrix_primary.sh quick: with the final harness, the check of the property the change was written against (plus the check that catches it where that is another one) against a scratch worktree with the patch applied (see final.log); wave-a changes were also run with the patch applied to /repo itself (git apply / checkout)",
         ],
         "first_encounter": n.get("first_run", ""),
-        "checks_that_fire_now": fired,
-        "checks_exit_2": exit2,
-        "oracles": oracles,
+        "final_harness_quick_tier": {"checks_run": re.findall(r"== (C\d+) rc=", final), "checks_that_fire": ffired, "checks_exit_2": fexit2, "oracles": foracles},
+        "earlier_full_matrix_all_eight_checks": {"checks_that_fired": fired, "checks_exit_2": exit2, "oracles": oracles},
+        "checks_that_fire_now": sorted(set(ffired) | (set(fired) if not final else set())),
         "demonstration": [os.path.basename(f) for f in glob.glob(os.path.join(d, "*_test.go.txt"))],
     }
     json.dump(meta, open(os.path.join(d, "meta.json"), "w"), indent=1)
